@@ -36,9 +36,10 @@ def scribble(res, depth=0):
         pass
 
 
-def scramble(o, depth=0, _seen=None):
+def scramble(o, depth=0, _seen=None, public_only=False):
     """rewrite the attributes of a parsed *object* in place (ints, bools, bytes, strings, buffers, containers, nested objects);
-    enum members and classes are left alone (they are shared by design)"""
+    enum members and classes are left alone (they are shared by design); public_only: attributes whose name starts with an
+    underscore are the library's own business and are left alone"""
     if _seen is None:
         _seen = set()
     if id(o) in _seen or depth > 4:
@@ -47,7 +48,7 @@ def scramble(o, depth=0, _seen=None):
     if isinstance(o, (bitarray, bytearray, list, dict)) or type(o).__module__ == "numpy":
         if isinstance(o, list):
             for x in list(o):
-                scramble(x, depth + 1, _seen)
+                scramble(x, depth + 1, _seen, public_only)
         scribble(o)
         return
     if isinstance(o, (enum.Enum, type)) or o is None or isinstance(o, (int, float, str, bytes, tuple, frozenset)):
@@ -56,6 +57,8 @@ def scramble(o, depth=0, _seen=None):
     if not isinstance(d, dict):
         return
     for k, v in list(d.items()):
+        if public_only and isinstance(k, str) and k.startswith("_"):
+            continue
         try:
             if isinstance(v, bool):
                 d[k] = not v
@@ -69,9 +72,9 @@ def scramble(o, depth=0, _seen=None):
                 d[k] = v[::-1] + "~"
             elif isinstance(v, tuple):
                 for x in v:
-                    scramble(x, depth + 1, _seen)
+                    scramble(x, depth + 1, _seen, public_only)
             else:
-                scramble(v, depth + 1, _seen)
+                scramble(v, depth + 1, _seen, public_only)
         except Exception:  # noqa: BLE001
             pass
 
@@ -447,3 +450,139 @@ def picklable_entry_points(s, funcs):
         except Exception as e:  # noqa: BLE001
             s.violation(f"entry_point_cannot_be_handed_to_a_worker_process:{name}:" + type(e).__name__, {"entry_point": name}, repr(e))
         s.case(nontrivial=True, calls=1, outcome="pickle")
+
+
+def overwrite_in_place(buf, new):
+    """give the caller's buffer object `buf` the content of `new` without making a new object"""
+    if isinstance(buf, bitarray):
+        buf.clear()
+        buf.extend(new)
+    elif isinstance(buf, (bytearray, list)):
+        buf[:] = new
+    elif type(buf).__module__ == "numpy":
+        buf[...] = new
+    else:
+        raise TypeError(type(buf).__name__)
+
+
+def reused_buffer(s, label, entries, obs=None, may_write=()):
+    """The caller builds every message in ONE buffer object that it overwrites in place between calls (a frame assembled in a
+    pre-allocated bitarray / bytearray, a field counted up, a bit inverted to inject an error).
+
+    entries: list of (name, call(buffer) -> result, inputs, expected) -- `inputs` a list of equal-typed mutable buffers (bitarray,
+    bytearray, list, numpy array); `expected` a list of the same length with what the call must return for each (from the check's own
+    reference), or None: then the expected observations are taken first, from calls on fresh objects, before the shared buffer exists.
+    Then one buffer object takes the content of each input in turn and is passed to the call; the result must be the expected one and
+    the buffer must still hold what the caller wrote (except for the entry points named in `may_write`: repair-in-place calls).  A library that remembers the caller's object (a memo keyed by the argument
+    object, a "same as last time" shortcut) answers for the previous content here."""
+    import copy as _copy
+    from .report import exc_sig
+    from . import canon as _canon
+
+    if obs is None:
+        obs = lambda r: _canon.digest(r)  # noqa: E731
+    for name, call, inputs, expected in entries:
+        if expected is None:
+            expected = []
+            for x in inputs:
+                try:
+                    expected.append(obs(call(_copy.deepcopy(x))))
+                except Exception as e:  # noqa: BLE001
+                    expected.append("raises:" + type(e).__name__)
+        else:
+            expected = [obs(e) for e in expected]
+        buf = _copy.deepcopy(inputs[0])
+        for i, x in enumerate(inputs):
+            case = {"entry_point": name, "position_in_sequence": i, "buffer": type(buf).__name__, "input": _canon.canon(x)}
+            overwrite_in_place(buf, x)
+            try:
+                got = obs(call(buf))
+            except Exception as e:  # noqa: BLE001
+                got = "raises:" + type(e).__name__
+                if expected[i] != got:
+                    s.violation(f"reused_buffer:exception:{label}:{name}:" + exc_sig(e), case, repr(e))
+                    s.case(nontrivial=True, calls=1, outcome="raises")
+                    continue
+            if got != expected[i]:
+                s.violation(f"reused_buffer:answer_for_an_earlier_content_of_the_callers_buffer:{label}:{name}", case,
+                            "the caller overwrote its buffer in place and called again: the result is not the one for the buffer's present content")
+            try:
+                same = _canon.digest(buf) == _canon.digest(x)
+            except Exception:  # noqa: BLE001
+                same = True
+            if not same and name not in may_write:
+                s.violation(f"reused_buffer:callers_buffer_modified:{label}:{name}", case, "the call changed the caller's buffer")
+            s.case(nontrivial=i > 0, calls=1, outcome="reused", sample=case if len(s.samples) < 1 else None)
+        s.extra.setdefault("reused_buffer", {})[f"{label}:{name}"] = len(inputs)
+
+
+# ----------------------------------------------------------------------------------------------
+# objects built with default arguments
+# ----------------------------------------------------------------------------------------------
+def _guess_argument(ann, name, depth):
+    import typing
+
+    origin = typing.get_origin(ann)
+    if origin is typing.Union:
+        args = [a for a in typing.get_args(ann) if a is not type(None)]
+        if not args:
+            return None
+        return _guess_argument(args[0], name, depth)
+    if origin in (list, typing.List):
+        return []
+    if origin in (dict, typing.Dict):
+        return {}
+    if origin is typing.Literal:
+        return typing.get_args(ann)[0]
+    if isinstance(ann, type):
+        if issubclass(ann, enum.Enum):
+            return list(ann)[0]
+        for t, v in ((bool, False), (int, 1), (float, 1.5), (bytes, b"\x00\x01"), (str, "a")):
+            if ann is t:
+                return v
+        if ann is bitarray:
+            return bitarray("0" * 8)
+        if ann.__module__.startswith("okdmr.") and depth < 2:
+            return build_with_defaults(ann, depth + 1)
+    raise TypeError(f"no value for {name}: {ann!r}")
+
+
+def build_with_defaults(cls, depth=0):
+    """cls(...) with a small fixed value for every REQUIRED parameter (by annotation) and every optional parameter left at its
+    default -- the defaults are the point"""
+    import inspect
+    import typing
+
+    sig = inspect.signature(cls.__init__)
+    try:
+        hints = typing.get_type_hints(cls.__init__)
+    except Exception:  # noqa: BLE001
+        hints = {}
+    kw = {}
+    for n, p in list(sig.parameters.items())[1:]:
+        if p.kind in (p.VAR_POSITIONAL, p.VAR_KEYWORD) or p.default is not p.empty:
+            continue
+        kw[n] = _guess_argument(hints.get(n, p.annotation), n, depth)
+    return cls(**kw)
+
+
+def default_constructible(mods, parts):
+    """(qualified name, class) of every concrete class defined in the given modules (name contains one of `parts`) that can be built
+    by build_with_defaults; the classes that cannot are returned as a second list of names (not explored, reported)"""
+    import inspect
+
+    ok, skipped = [], []
+    for m in sorted(mods, key=lambda m: m.__name__):
+        if not any(x in m.__name__ for x in parts):
+            continue
+        for n, cls in sorted(vars(m).items()):
+            if not isinstance(cls, type) or cls.__module__ != m.__name__ or issubclass(cls, (enum.Enum, BaseException)):
+                continue
+            if inspect.isabstract(cls) or cls.__init__ is object.__init__:
+                continue
+            try:
+                build_with_defaults(cls)
+                ok.append((f"{m.__name__.replace('okdmr.dmrlib.', '')}.{n}", cls))
+            except Exception:  # noqa: BLE001
+                skipped.append(f"{m.__name__.replace('okdmr.dmrlib.', '')}.{n}")
+    return ok, skipped
